@@ -197,6 +197,23 @@ func Upgrade8To10(old, new string, logger *log.Logger) (retErr error) {
 	// Remove incomplete plan file from an interrupted write.
 	os.Remove(planPath + ".tmp")
 
+	// The upgrade only ever puts the new directory in place complete, by a rename. An
+	// empty new directory is therefore not the result of an upgrade: it was merely
+	// created (opening a Snapshot Store on a path creates it, which is what checking a
+	// node for existing data does). It must not be mistaken for an upgraded store, or
+	// the old directory would be removed without having been upgraded.
+	if fsutil.DirExists(new) {
+		newIsEmpty, err := fsutil.DirIsEmpty(new)
+		if err != nil {
+			return fmt.Errorf("failed to check if new snapshot directory %s is empty: %s", new, err)
+		}
+		if newIsEmpty {
+			if err := os.Remove(new); err != nil {
+				return fmt.Errorf("failed to remove empty new snapshot directory %s: %s", new, err)
+			}
+		}
+	}
+
 	// Check for existing plan (crash recovery).
 	if fsutil.FileExists(planPath) {
 		logger.Printf("found existing upgrade plan at %s, resuming", planPath)
